@@ -137,6 +137,7 @@ class Report(object):
         known = load_known_findings(self.pid)
         violations = 0
         out_lines = []
+        known_counts, known_text = {}, {}
         for line in self.known_lines:
             out_lines.append(line)
         for clause in sorted(self.failures):
@@ -148,16 +149,17 @@ class Report(object):
                     matched = k
                     break
             if matched is not None:
-                line = 'KNOWN-FINDING: property=%s %s (%s, %d cases)' % (
-                    self.pid, matched['text'], matched['id'], self.failure_counts[clause])
-                if line not in out_lines:
-                    out_lines.append(line)
+                known_counts[matched['id']] = known_counts.get(matched['id'], 0) + self.failure_counts[clause]
+                known_text[matched['id']] = matched['text']
                 continue
             path = write_replay(self.pid, clause, f)
             violations += 1
             out_lines.append('VIOLATION property=%s replay=%s' % (self.pid, path))
             out_lines.append('  clause: %s  (%d cases)  detail: %s' % (
                 clause, self.failure_counts[clause], json.dumps(jsonable(f['detail']))[:600]))
+        for kid in sorted(known_counts):
+            out_lines.insert(0, 'KNOWN-FINDING: property=%s %s (%s, %d cases)' % (self.pid, known_text[kid], kid, known_counts[kid]))
+        self.extra['known_findings_seen'] = dict(known_counts)
         missing = [c for c in self.required_classes if self.classes.get(c, 0) == 0]
         if missing:
             self.harness_errors.append('generator never produced required classes: %s' % missing)
